@@ -187,6 +187,19 @@ CHECKS = {
    design_ref='DESIGN.md 6 (C16)',
    note='Routing is by model name through allow_migrate / db_for_write; relations across databases are not generated.',
    technique='TLA+ model of per-database routing of mutations + TLC; scenarios replayed on a two-database project'),
+ 'C10': dict(
+   engine='handover', category='model_checking',
+   text=('Handover.tla is a step machine of one upgrade of an app with K evolutions, an optional covering evolution and '
+         'MoveToDjangoMigrations(mark_applied = first S of M migrations): run pending evolutions, record the marked migrations, run the '
+         'remaining ones lowest first, save the signature; then a second upgrade. Init ranges over K, S, the start state (fresh, after j '
+         'evolutions, already handed over with a shorter chain) and companion apps; TLC checks RecordedExactlyOnce, MarkedNotExecuted, '
+         'RemainingExecutedInOrder, PendingEvolutionsFirst, SignatureListsRecorded, SchemaComplete, NoEvolutionSqlOnceOnMigrations, '
+         'RerunIsNoop. Every configuration is built as a real project with evolution modules and migration files and upgraded through '
+         '`evolve --execute`, the Evolver API or `migrate`, twice; signals, django_migrations rows with multiplicity, django_evolution '
+         'rows, columns and the stored app signature are compared with the specification.'),
+   design_ref='DESIGN.md 6 (C10)',
+   note='Migration chains are linear AddField chains on disk (not in-memory migrations); hints after the handover are not requested.',
+   technique='TLA+ step machine of the handover + TLC over all configurations; every configuration replayed on a real project'),
 }
 
 NOT_YET = {
@@ -240,6 +253,8 @@ def main():
              'kind_free_text': 'uninstall / DeleteModel / purge sequences from Purge.tla replayed on a three-app project'},
             {'name': 'route', 'path': 'harness/engines/route.py', 'serves_properties': ['C16'],
              'kind_free_text': 'router configurations and evolutions from Route.tla replayed on a two-database project'},
+            {'name': 'handover', 'path': 'harness/engines/handover.py', 'serves_properties': ['C10'],
+             'kind_free_text': 'handover configurations of Handover.tla built as projects with evolutions and migration files, upgraded twice'},
             {'name': 'refs', 'path': 'harness/engines/refs.py', 'serves_properties': ['C11'],
              'kind_free_text': 'TLC-enumerated reference graphs and rename/delete sequences replayed into real simulate() methods'},
             {'name': 'evograph', 'path': 'harness/engines/evograph.py', 'serves_properties': ['C09'],
